@@ -86,12 +86,13 @@ pub fn op_proto(name: &str, op: &Op) -> String {
     Op::Size => format!("size {name}"),
     Op::Rope => format!("rope {name}"),
     Op::Writer(k) => format!("writer {name} {k}"),
-    Op::Stream(c, f) => format!("stream {name} {} {}", b(c), b(f)),
+    // a build with overflow checks (the debug profile) is compared with the model in which ConcatSource's u32 additions are partial too
+    Op::Stream(c, f) => format!("{} {name} {} {}", if cfg!(debug_assertions) { "chkstream" } else { "stream" }, b(c), b(f)),
     Op::Map(c) => format!("map {name} {} 0", b(c)),
     Op::Hash => format!("feed {name} 0"),
     Op::Eq(j) => format!("eq {name} A{j}"),
     Op::CloneCheck => format!("clonecheck {name}"),
-    Op::CustomStream(c, f) | Op::StreamKeep(c, f) => format!("stream {name} {} {}", b(c), b(f)),
+    Op::CustomStream(c, f) | Op::StreamKeep(c, f) => format!("{} {name} {} {}", if cfg!(debug_assertions) { "chkstream" } else { "stream" }, b(c), b(f)),
   }
 }
 
